@@ -117,6 +117,9 @@ def run(chk: common.Check):
         cases.append((n, structures.read(n), [], "default"))
     # display mode on a structure with a non-covalently coupled pair (ASP 25 A / ASP 25 B): the swapped state is kept and must be consistent
     cases.append(("1HPX.pdb", structures.read("1HPX.pdb"), ["-d"], "default"))
+    # a chain whose groups are not contiguous in record order: the ligand of 1HPX written with chain id A after chain B
+    cases.append(("1HPX.pdb ligand re-chained to A", "\n".join((l[:21] + "A" + l[22:]) if (l[:6] == "HETATM" and l[17:20] == "KNI") else l
+                                                              for l in structures.read("1HPX.pdb").splitlines()) + "\n", [], "default"))
     big = ["3SGB-subset.pdb"] + (["1HPX.pdb", "1FTJ-Chain-A.pdb", "4DFR.pdb"] if chk.thorough else [])
     for n in big:
         t = structures.read(n)
